@@ -96,6 +96,15 @@ def check_a(cmd):
             i2 = inst.build_cdb(**dict(d))
         expect(bytes(i1) == bytes(b) and bytes(i2) == bytes(b), "mismatch:instance_build_cdb", first=bytes(i1), second=bytes(i2), want=bytes(b))
         expect(bytes(inst.cdb) == own, "mismatch:build_cdb_changed_the_commands_own_cdb")
+        # the same assignment without the opcode key: every other field is placed as before
+        if "opcode" in d:
+            d_no = {k: v for k, v in d.items() if k != "opcode"}
+            with lib("marshall_cdb without opcode"):
+                b3 = cmd.cls.marshall_cdb(d_no)
+            # (without an opcode the library documents "the shortest cdb that holds the layout")
+            m = len(b3)
+            expect(m in (6, 10, 12, 16) and m <= n and bytes(b3[1:]) == bytes(b[1:m]) and b3[0] == 0
+                   and not any(b[m:]), "mismatch:encode_without_opcode", got=bytes(b3), want=bytes(b))
         lay = layout_of(cmd)
         nz = sum(1 for v in d.values() if v)
         top = any((w > 8 or (m & 0xFF) != 0xFF and w > 1) and d[k] >> (w - 1) for k, (m, o, w) in lay.items())
